@@ -20,7 +20,7 @@ def run(ctx, model_ok):
     n = 150 if ctx.quick() else 2500
     cases_ws = [cc.gen_windows(ctx.rng, env, ctx.rng.choice([3, 8, 15, 30])) for _ in range(n)]
     req = [[[e for e in w] for w in ws] for ws in cases_ws]
-    res = vlib.run_impl('run_composite.py', {'cases': req})['results']
+    res = vlib.run_impl('run_composite.py', {'cases': req, 'declared': True})['results']
     ctx.evaluations = n
     ctx.rule = ('streams of 3..30 windows: image announcements (addresses from a pool of 6 incl. adjacent and repeated ones), '
                 'launch windows with nested image-map / shared-cache records, sampler windows (flag words with/without '
